@@ -280,6 +280,9 @@ Definition pstep (w : lworld) (op : pop) : lworld * mres :=
       let '(l, it) := nl_remove (pred (length (nodes l0))) l0 in (upd i l w, MIt i it)
   | PClear i => (upd i (nl_clear (lget i w)) w, MNone)
   | PSwap i j => (upd j (lget i w) (upd i (lget j w) w), MNone)
+  (* every one of the eight append overloads is linkFreeItem(new (allocateFreeItem()) T(a, b, ...)):
+     same allocation and linking, the element built from all the arguments in their order *)
+  | PAppendN i args => let '(l, s) := nl_append (ctor_val args) (lget i w) in (upd i l w, MRef i s)
   end.
 
 (* what an observer sees of a returned iterator/reference: the rank of the node it points to *)
